@@ -112,8 +112,9 @@ pub fn run(args: &Args) -> i32 {
     }
     let mut run = Run::new("C20", args.tier, "model_checking");
     std::panic::set_hook(Box::new(|_| {}));
-    let versions = [http::Version::HTTP_10, http::Version::HTTP_11, http::Version::HTTP_2];
-    let hosts: Vec<Option<&str>> = vec![
+    let thorough = args.tier.is_thorough();
+    let versions: Vec<http::Version> = if thorough { vec![http::Version::HTTP_09, http::Version::HTTP_10, http::Version::HTTP_11, http::Version::HTTP_2, http::Version::HTTP_3] } else { vec![http::Version::HTTP_10, http::Version::HTTP_11, http::Version::HTTP_2] };
+    let mut hosts: Vec<Option<&str>> = vec![
         None,
         Some("example.com"),
         Some("EXAMPLE.com"),
@@ -127,7 +128,10 @@ pub fn run(args: &Args) -> i32 {
         Some("127.0.0.1:80"),
         Some("localhost"),
     ];
-    let uris = [
+    if thorough {
+        hosts.extend([Some("example.com:0"), Some("example.com:65535"), Some("xn--exmple-cua.com"), Some("XN--EXMPLE-CUA.COM:443"), Some("a-b.example.com"), Some("[2001:db8::1]:443"), Some("10.0.0.1:8443"), Some("LOCALHOST:80")]);
+    }
+    let mut uris = vec![
         "/",
         "https://example.com/",
         "https://EXAMPLE.COM/x",
@@ -138,7 +142,13 @@ pub fn run(args: &Args) -> i32 {
         "https://127.0.0.1/",
         "https://localhost:443/",
     ];
-    let snis: Vec<Option<&str>> = vec![None, Some("example.com"), Some("Example.COM"), Some("other.test"), Some("localhost")];
+    if thorough {
+        uris.extend(["https://xn--exmple-cua.com/", "https://a-b.example.com:8443/p?q", "https://[2001:db8::1]/", "http://example.com/", "https://LOCALHOST/"]);
+    }
+    let mut snis: Vec<Option<&str>> = vec![None, Some("example.com"), Some("Example.COM"), Some("other.test"), Some("localhost")];
+    if thorough {
+        snis.extend([Some("xn--exmple-cua.com"), Some("a-b.example.com"), Some("LOCALHOST"), Some("example.org")]);
+    }
     let mut evaluations = 0u64;
     let mut classes = BTreeSet::new();
     let mut samples = vec![];
@@ -217,7 +227,7 @@ pub fn run(args: &Args) -> i32 {
     let _ = std::panic::take_hook();
     run.cov("evaluations", evaluations);
     run.cov("distinct_nontrivial", classes.len() as u64);
-    run.cov("rule", "full cross product version{1.0,1.1,2} x Host header (12 values: absent, names, case variants, ports, IPv4, bracketed IPv6) x URI (9: origin-form and absolute with authority variants) x SNI{absent, equal, case-variant, other, localhost}; distinct = (version, host named?, sni present?, outcome)");
+    run.cov("rule", "full cross product version{1.0,1.1,2} (thorough: also 0.9 and 3, more host/URI/SNI forms) x Host header (12 values: absent, names, case variants, ports, IPv4, bracketed IPv6) x URI (9: origin-form and absolute with authority variants) x SNI{absent, equal, case-variant, other, localhost}; distinct = (version, host named?, sni present?, outcome)");
     run.cov("exhaustive", true);
     run.cov("samples", samples);
     run.assume("named host: Host header for HTTP/1.x; authority, failing that Host header, for HTTP/2 (statement)");
